@@ -45,8 +45,6 @@ def cases(tier, seed):
     depth = 2 if tier == "quick" else 3
     for n in range(1, depth + 1):
         for seq in itertools.product(A, repeat=n):
-            if n == 3 and tier != "quick" and (hash_small(seq) % 3 != 0):
-                continue      # thorough: every third 3-sequence (243 of 729), all shorter ones
             yield "scene", dict(names=list(seq))
     # priorized fitting where ONE input source at a time is unusable (its pixel is blank / it lies off the image): every
     # component of the blind catalogue in turn
